@@ -137,7 +137,7 @@ class Quantile(Aggregator):
            quantile (float): A value between 0 and 1 inclusive
         """
         self.quantile = quantile
-        if self.quantile < 0 or self.quantile > 1:
+        if not (self.quantile >= 0 and self.quantile <= 1):
             verif.util.error("Quantile must be between 0 and 1")
 
     def __call__(self, array, axis=None):
